@@ -263,6 +263,21 @@ def sec_sv_nf(rep):
             rep.add(ob_eval(f"C06/compute_local/nf-passed-to-sv-manager/{chan}/nf={nf}", seen == exp, detail=str(seen)))
 
 
+def sec_sv_history(rep):
+    """'The same number governs the beta-function coefficients': one scale-variation manager asked
+    for a sequence of flavour numbers answers each request with that number's coefficients
+    (contract shared with C05, re-discharged here)."""
+    from . import c05
+
+    n0 = len(rep.obs)
+    c05.sec_tables(rep)
+    keep = [o for o in rep.obs[n0:] if "/history/" in o.name or "/ren_coeffs/" in o.name]
+    del rep.obs[n0:]
+    for o in keep:
+        o.name = o.name.replace("C05/", "C06/scale-variations/", 1)
+        rep.obs.append(o)
+
+
 def sec_readset(rep):
     """Read-set lemma (AST): the Atlas stored under 'threshold' is read in Combiner.__init__ only, so
     results depend on the thresholds only through nf."""
@@ -305,7 +320,7 @@ def run(rep, tier, seed, only=None):
         "floats as reals: the threshold is by definition the computed double m^2*k^2, only comparisons follow",
         "Runner.__init__ is run for real (eko interpolator, Atlas); symbolic masses only in ZM-VFNS (other schemes multiply by inf thresholds)",
     )
-    for nm, f in (("update_fns", sec_update_fns), ("runner", sec_runner_atlas), ("nf", sec_nf), ("sv", sec_sv_nf), ("readset", sec_readset)):
+    for nm, f in (("update_fns", sec_update_fns), ("runner", sec_runner_atlas), ("nf", sec_nf), ("sv", sec_sv_nf), ("svhistory", sec_sv_history), ("readset", sec_readset)):
         if only and only not in nm:
             continue
         rep.add(guarded(f"C06/{nm}", lambda f=f: (f(rep), [])[1]))
